@@ -2,14 +2,16 @@
 from __future__ import annotations
 
 import math
+import os
 from decimal import Decimal
 from fractions import Fraction as F
 
 from common import Ctx, driver_json, fmt
 import gmx_common as G
 
+os.environ.setdefault("TQDM_DISABLE", "1")      # Actuator.run draws a progress bar per whole run
 PROPERTY = "C17"
-LEAN_MODULES = ["Proofs.C17", "Proofs.C17.V1Fee", "Proofs.C17.V2"]
+LEAN_MODULES = ["Proofs.C17", "Proofs.C17.V1Fee", "Proofs.C17.V2", "Proofs.C17.Bars", "Proofs.C17.V1Round", "Proofs.C17.V1RoundPy"]
 DRIVERS = ["driver_gmx"]
 RULE = ("v1: rows = the two recorded CSV days (sampled, optionally with one token's USDG amount moved to 0/0.3/1∓1e-6/1/1.7/3.2 x target) and synthetic "
         "rows (1-7 tokens, weights incl. 0, USDG supply 0/tiny/1e20-1e27, per-token USDG at 0-4 x target, AUM/GLP incl. 0, glp_price consistent with "
@@ -36,7 +38,7 @@ ASSUMPTIONS = [
 
 
 # ---------------------------------------------------------------------------------------------------- v1
-def v1_formula_oracle(ctx, w: G.V1World, op, res, spec, pre_glp):
+def v1_formula_oracle(ctx, w: G.V1World, op, res, spec, pre_glp, rep=None):
     """minted / redeemed amount = price x amount / value per share, net of the observed fee, with the contract's round-down steps.
     Written in USD terms from the property text (value per share = floor(AUM/1e12) / supply, both 1e18-scaled), not from the code:
     every round-down step may lose strictly less than one unit (token wei scaled to USDG wei, USDG wei, GLP wei) and never gains."""
@@ -47,7 +49,7 @@ def v1_formula_oracle(ctx, w: G.V1World, op, res, spec, pre_glp):
     price = F(r[f"{tok}_price"]) / G.E30                 # USD per token
     aumU = G.floor_frac(F(r["aum"]) / G.E12)            # pool value in USDG wei
     supply = F(r["glp"])                                 # GLP wei
-    rep = {"world": spec, "ops": [ser_op(op)]}
+    rep = rep or {"world": spec, "ops": [ser_op(op)]}
     if supply == 0 or aumU == 0 or price == 0:
         return          # degenerate rows (no GLP outstanding / AUM below one USDG unit): value per share is undefined
     per_share = F(aumU) / supply                         # USDG wei per GLP wei = USD per GLP
@@ -93,9 +95,13 @@ def de_op(o):
     return o
 
 
-def v1_step_oracle(ctx, w, op, cls, out, res, pre, post, spec):
+def v1_step_oracle(ctx, w, op, cls, out, res, pre, post, spec, rep=None):
     """the C17 clauses that are visible on one call"""
-    rep = {"world": spec, "ops": [ser_op(op)]}
+    rep = rep or {"world": spec, "ops": [ser_op(op)]}
+    if op["kind"] == "fee":
+        if out == "ok":
+            v1_fee_oracle(ctx, w, op["tok"], int(op["amount"]), op["increase"], res, rep)
+        return
     if F(pre["glp"]) >= 0 and F(post["glp"]) < 0:
         ctx.violate(f"v1.{op['kind']}_glp.negative_holding", f"{op['kind']}_glp({op.get('tok')}, {op.get('amount')}) with holding {pre['glp']} leaves glp_amount = {post['glp']}", rep)
     if op["kind"] == "sell" and out == "ok":
@@ -107,7 +113,7 @@ def v1_step_oracle(ctx, w, op, cls, out, res, pre, post, spec):
     if op["kind"] == "buy" and out == "ok" and F(op["amount"]) < 0:
         ctx.violate("v1.buy_glp.negative_amount", f"buy_glp({op['tok']}, {op['amount']}) accepted: returned {res} GLP and credited the wallet", rep)
     if out == "ok" and op["kind"] in ("buy", "sell") and F(op["amount"]) >= 0 and (op["kind"] == "buy" or F(pre["glp"]) >= 0):
-        v1_formula_oracle(ctx, w, op, res, spec, pre["glp"])
+        v1_formula_oracle(ctx, w, op, res, spec, pre["glp"], rep)
     if op["kind"] == "update" and out == "ok":
         r = w.market.market_status.data
         want = F(float(r["interval"])) * 60 * F(pre["glp"]) / F(r["glp"])
@@ -158,6 +164,35 @@ def v1_sequences(ctx: Ctx, n: int):
             ctx.disagree(f"v1 {op['kind']} ({cls}): " + "; ".join(diffs)[:600], rep)
         if out == "ok" and res is not None and e.get("outcome") == "ok" and cls not in ("wei", "zero"):
             ctx.dev(F(e["result"]), F(res))
+            x, y = F(e["result"]), F(res)
+            if x != y and abs(x - y) > F(1, 10 ** 20) * max(abs(x), abs(y)):
+                # exact and 35-digit arithmetic disagree visibly: only the int() of the tax can do that (theorems
+                # C17_v1_capped_tax_rounding_exactly_1bp / ..._round35_exactly_1bp: 84 instead of 85 bp in the capped branch)
+                ctx.count(f"exact_vs_py_visible_difference:{a['tag']}")
+                if abs(x - y) > F(2, 10 ** 4) * max(abs(x), abs(y)):
+                    ctx.disagree(f"v1 {op['kind']}: exact-arithmetic result {float(x)!r} and implementation {res} differ by more than the 1 bp the rounding lemma allows", rep)
+
+
+def v1_fee_oracle(ctx, w, tok, delta, inc, fee, rep):
+    """fee in [0, 25 + 60] and within 1 bp (+ 200/target) of the Vault's integer rule evaluated on the CURRENT row of the live object"""
+    initial, weight, supply, total = G.v1_fee_inputs(w, tok)
+    T = F(weight * supply, total) if total else F(0)
+    fee_f = F(fee)
+    if not (0 <= fee_f <= 85):
+        ctx.violate("v1.fee.range", f"get_fee_basis_points({tok}, {delta}, {inc}) = {fee} outside [0, 25 + 60]", rep)
+    if total == 0:
+        return
+    vt = G.vault_target(weight, supply, total)
+    vf = G.vault_fee_bps(initial, delta, vt, inc)
+    slack = 1 + (F(200) / T if T > 0 else 0)
+    if abs(fee_f - vf) > slack:
+        if vt < 200:
+            ctx.violate("v1.fee.vault_rule.dust_target", f"fee {fee} vs Vault rule {vf}: target {float(T)!r} is below 200 wei of USDG", rep)
+        elif G.branch_edge(initial, delta, weight, supply, total, inc):
+            ctx.violate("v1.fee.vault_rule.branch_edge", f"fee {fee} vs Vault rule {vf} at the rule's discontinuity |next-target| = |initial-target| "
+                        f"(initial {initial}, delta {delta}, target {float(T)!r}, increase {inc})", rep)
+        else:
+            ctx.violate("v1.fee.vault_rule", f"fee {fee} differs from the Vault rule {vf} by more than 1 bp (initial {initial}, delta {delta}, target {float(T)!r}, increase {inc})", rep)
 
 
 def v1_fee_sweep(ctx: Ctx, n: int):
@@ -192,20 +227,7 @@ def v1_fee_sweep(ctx: Ctx, n: int):
         ctx.impl_traces += 1
         tcls = "T=0" if T == 0 else ("T<200" if T < 200 else "T-ok")
         if out == "ok":
-            fee_f = F(fee)
-            if not (0 <= fee_f <= 85):
-                ctx.violate("v1.fee.range", f"get_fee_basis_points({tok}, {delta}, {inc}) = {fee} outside [0, 25 + 60]", rep)
-            vt = G.vault_target(weight, supply, total)
-            vf = G.vault_fee_bps(initial, delta, vt, inc)
-            slack = 1 + (F(200) / T if T > 0 else 0)
-            if abs(fee_f - vf) > slack:
-                if vt < 200:
-                    ctx.violate("v1.fee.vault_rule.dust_target", f"fee {fee} vs Vault rule {vf}: target {float(T)!r} is below 200 wei of USDG", rep)
-                elif G.branch_edge(initial, delta, weight, supply, total, inc):
-                    ctx.violate("v1.fee.vault_rule.branch_edge", f"fee {fee} vs Vault rule {vf} at the rule's discontinuity |next-target| = |initial-target| "
-                                f"(initial {initial}, delta {delta}, target {float(T)!r}, increase {inc})", rep)
-                else:
-                    ctx.violate("v1.fee.vault_rule", f"fee {fee} differs from the Vault rule {vf} by more than 1 bp (initial {initial}, delta {delta}, target {float(T)!r}, increase {inc})", rep)
+            v1_fee_oracle(ctx, w, tok, delta, inc, fee, rep)
         pending.append((tok, delta, inc, dcls, tcls, out, fee, rep, initial, weight, supply, total,
                         {"fn": "gmx1.fee", "env": w.env_json(), "tok": tok, "usdg": str(delta), "increase": inc}))
     if not ctx.driver_ok:
@@ -275,6 +297,152 @@ def v1_roundtrips(ctx: Ctx, n: int):
                      {"tok": tok, "amount": str(amount), "back": str(got)})
 
 
+# ---------------------------------------------------------------------------------------------------- v1 across bars
+def v1_op_usdg(w: G.V1World, op, pre_glp):
+    """the USDG amount a buy/sell hands to the fee rule, from the property text (None on degenerate rows)"""
+    r = w.market.market_status.data
+    tok = op["tok"]
+    if f"{tok}_price" not in r.index or tok not in w.token_names:
+        return None
+    d = w.token(tok).decimal
+    price = F(r[f"{tok}_price"]) / G.E30
+    if op["kind"] == "buy":
+        return G.floor_frac(F(G.floor_frac(F(op["amount"]) * 10 ** d * price)) * G.E18 / 10 ** d), True
+    supply, aumU = F(r["glp"]), G.floor_frac(F(r["aum"]) / G.E12)
+    if supply == 0:
+        return None
+    g = F(op["amount"]) if op["amount"] != 0 else F(pre_glp)
+    return G.floor_frac(g * G.E18 * F(aumU) / supply), False
+
+
+def gen_fee_probe(rng, w: G.V1World):
+    tok = rng.choice(w.token_names)
+    initial, weight, supply, total = G.v1_fee_inputs(w, tok)
+    T = F(weight * supply, total) if total else F(0)
+    c = rng.random()
+    if c < 0.15:
+        delta, cls = rng.randint(0, 1000), "dust"
+    elif c < 0.35 and T > 0:
+        delta, cls = max(0, abs(G.floor_frac(T) - initial) + rng.choice([-1, 0, 1])), "to-target"
+    elif c < 0.5 and initial:
+        delta, cls = initial + rng.choice([-1, 0, 1]), "all"
+    else:
+        delta, cls = int(G._logu(rng, 15, 27)), "mid"
+    return {"kind": "fee", "tok": tok, "amount": Decimal(max(0, delta)), "increase": rng.random() < 0.5}, "fee-" + cls
+
+
+def v1_event_json(ev, w):
+    if "bar" in ev:
+        return None
+    if ev["kind"] == "fee":
+        return {"ev": "fee", "tok": ev["tok"], "usdg": ev["amount"], "increase": ev["increase"]}
+    return {"ev": "op", "op": G.v1_op_json(ev, w)}
+
+
+def v1_multibar(ctx: Ctx, n: int):
+    """ONE live GmxMarket moved through several bars by set_market_status, every group of row fields changing between bars, operations and
+    fee reads interleaved with the row changes.  Every call is checked three ways: the property oracles on the current row; step-wise
+    against the model from the dumped state; and against the model's own fold over the whole history (`gmx1.events`)."""
+    steps, folds = [], []
+    fields = None
+    for _ in range(n):
+        rows, names, classes = G.gen_v1_frame(ctx.rng)
+        wallet = [(t, G.rand_dec(ctx.rng, 0, 7, 6)) for t in names if ctx.rng.random() < 0.9]
+        w = G.V1World(rows, names, wallet, glp=(G.rand_dec(ctx.rng, -1, 6, 18) if ctx.rng.random() < 0.6 else None))
+        spec0 = w.spec_bars()
+        env0, st0 = w.env_json(), w.dump()
+        hist, evs, seen = [], [], []
+        for k in range(len(rows)):
+            w.set_bar(k)
+            hist.append({"bar": k})
+            evs.append({"ev": "status", "env": w.env_json()})
+            seen.append(("status", k, classes[k], None, None, None, w.dump(), [], None))
+            todo = [ctx.rng.random() < 0.45 for _ in range(ctx.rng.choice([1, 1, 2, 3]))]
+            for probe in todo + [None]:
+                if probe is None:
+                    if ctx.rng.random() < 0.3:
+                        continue
+                    op, cls = {"kind": "update"}, "update"
+                elif probe:
+                    op, cls = gen_fee_probe(ctx.rng, w)
+                else:
+                    op, cls = G.gen_v1_op(ctx.rng, w)
+                pre, env = w.dump(), w.env_json()
+                hist.append(ser_op(op))
+                rep = {"world": spec0, "events": list(hist)}
+                out, res, acts = w.apply(op)
+                post = w.dump()
+                ctx.impl_traces += 1
+                v1_step_oracle(ctx, w, op, cls, out, res, pre, post, None, rep)
+                if out == "ok" and op["kind"] in ("buy", "sell") and F(op["amount"]) >= 0:
+                    u = v1_op_usdg(w, op, pre["glp"])      # the fee this very call was charged, against the current row's Vault rule
+                    if u is not None:
+                        try:
+                            v1_fee_oracle(ctx, w, op["tok"], u[0], u[1], w.market.get_fee_basis_points(w.token(op["tok"]), Decimal(u[0]), u[1]), rep)
+                        except ArithmeticError:
+                            pass
+                evs.append(v1_event_json(op, w))
+                seen.append((op["kind"], k, classes[k], cls, out, res, post, acts, rep))
+                if op["kind"] == "fee":
+                    req = {"fn": "gmx1.fee", "env": env, "tok": op["tok"], "usdg": op["amount"], "increase": op["increase"]}
+                else:
+                    req = {"fn": "gmx1.step", "env": env, "state": {"glp": pre["glp"], "reward": pre["reward"], "wallet": pre["wallet"]}, "op": G.v1_op_json(op, w)}
+                steps.append((op, k, classes[k], cls, out, res, acts, post, rep, req))
+        f = w.object_fields()
+        m = w.market
+        if (m.glp_decimal, m.mint_burn_fee_basis_points, m.tax_basis_points) != (18, 25, 60):
+            ctx.disagree(f"v1 object constants changed during a run: glp_decimal {m.glp_decimal}, fee {m.mint_burn_fee_basis_points}, tax {m.tax_basis_points}", {"world": spec0, "events": list(hist)})
+        fields = f if fields is None else sorted(set(fields) | set(f))
+        folds.append((seen, {"fn": "gmx1.events", "env0": env0, "state": {"glp": st0["glp"], "reward": st0["reward"], "wallet": st0["wallet"]}, "events": evs},
+                      {"world": spec0, "events": list(hist)}))
+    if not ctx.driver_ok:
+        for op, k, bcls, cls, out, *_ in steps:
+            ctx.case(f"v1:bars:{op['kind']}:?:{out}:{cls}:{'bar0' if k == 0 else 'later'}:{bcls}")
+        return
+    ans = driver_json([p[-1] for p in steps], exe="driver_gmx")
+    for (op, k, bcls, cls, out, res, acts, post, rep, req), a in zip(steps, ans):
+        if "error" in a:
+            ctx.disagree(f"driver error {a['error']}", rep)
+            continue
+        ctx.case(f"v1:bars:{op['kind']}:{a.get('tag', a.get('branch', '-'))}:{out}:{cls}:{'bar0' if k == 0 else 'later'}:{bcls}", {"bars": bcls, "op": ser_op(op), "outcome": out})
+        if a["outcome"] != out:
+            ctx.disagree(f"v1 bar {k} ({bcls}) {op['kind']} outcome impl {out} model {a['outcome']}", rep)
+            continue
+        if op["kind"] == "fee":
+            if out == "ok" and F(a["fee"]) != F(res):
+                ctx.disagree(f"v1 bar {k} ({bcls}) fee({op['tok']},{op['amount']},{op['increase']}) impl {res} model {a['fee']}", rep)
+            continue
+        diffs = G.state_eq_v1(a["state"], post, acts)
+        if out == "ok" and res is not None and F(a["result"]) != F(res):
+            diffs.append(f"result impl {res} model {a['result']}")
+        if diffs:
+            ctx.disagree(f"v1 bar {k} ({bcls}) {op['kind']} ({cls}): " + "; ".join(diffs)[:600], rep)
+    # the model's own fold: one object, state threaded inside the model
+    fans = driver_json([f[1] for f in folds], exe="driver_gmx")
+    for (seen, req, rep), fa in zip(folds, fans):
+        if isinstance(fa, dict):
+            ctx.disagree(f"v1 fold: driver error {fa}"[:300], rep)
+            continue
+        ok = True
+        for (kind, k, bcls, cls, out, res, post, acts, _), a in zip(seen, fa):
+            if kind == "status":
+                bad = F(a["glp"]) != F(post["glp"]) or F(a["reward"]) != F(post["reward"]) or [(x, F(y)) for x, y in a["wallet"]] != [(x, F(y)) for x, y in post["wallet"]]
+            elif a["outcome"] != out:
+                bad = True
+            elif kind == "fee":
+                bad = out == "ok" and F(a["fee"]) != F(res)
+            else:
+                bad = bool(G.state_eq_v1(a["state"], post, acts)) or (out == "ok" and res is not None and F(a["result"]) != F(res))
+            if bad:
+                ctx.disagree(f"v1 fold over {len(seen)} events: first difference at bar {k} ({bcls}) {kind}: impl {out} {res} {post} model {a}"[:700], rep)
+                ok = False
+                break
+        ctx.case(f"v1:fold:{len([1 for x in seen if x[0] == 'status'])}bars:{'agree' if ok else 'DISAGREE'}", n=len(seen))
+    ref = driver_json([{"fn": "gmx.fields"}], exe="driver_gmx")[0]
+    if fields is not None and sorted(ref.get("v1", [])) != fields:
+        ctx.disagree(f"GmxMarket objects carry state the model does not know (or lost some): vars(market) = {fields}, model objectFields = {sorted(ref.get('v1', []))}", {"world": None})
+
+
 # ---------------------------------------------------------------------------------------------------- v2
 def v2_formula_oracle(ctx, w: G.V2World, op, r, pre_amount, rep):
     """pool value per share with the fee factors and an impact capped by the impact pool (Fractions on the implementation's own outputs)"""
@@ -292,6 +460,7 @@ def v2_formula_oracle(ctx, w: G.V2World, op, r, pre_amount, rep):
         imp = F(r.price_impact_usd)
         lv, sv = la * lp, sa * sp
         want_value = F(0)
+        left = ip                                          # ONE impact pool for the whole deposit
         for amt, val, pin, pout in ((la, lv, lp, sp), (sa, sv, sp, lp)):
             if amt <= 0:
                 continue
@@ -299,16 +468,21 @@ def v2_formula_oracle(ctx, w: G.V2World, op, r, pre_amount, rep):
             f = F(c.depositFeeFactorForPositiveImpact if share > 0 else c.depositFeeFactorForNegativeImpact)
             credit = share
             if share > 0:
-                credit = min(share, ip * pout)          # positive impact is paid in the other token, capped by the impact pool
+                paid = min(share / pout, left)             # positive impact is paid in the other token, out of what is left of the impact pool
+                credit = paid * pout
+                left -= paid
             want_value += amt * (1 - f) * pin + credit
         got_value = F(r.gm_amount) * pv / sup
         if not close(got_value, want_value, lv + sv):
             ctx.violate("v2.deposit.formula", f"deposit({op['long']}, {op['short']}) minted {r.gm_amount} GM worth {float(got_value)!r}; fee factors + capped impact give {float(want_value)!r}", rep)
-        if imp > 0:
+        if imp > 0 and ip >= 0:
+            # the cap, stated without the payout order: whatever was credited beyond the fee-reduced deposit came out of the impact pool,
+            # so it is worth at most the whole pool in the dearer of the tokens it was paid in, and at most the impact itself
             bonus = got_value - sum(a_ * (1 - F(c.depositFeeFactorForPositiveImpact)) * p_ for a_, p_ in ((la, lp), (sa, sp)) if a_ > 0)
-            cap = (ip * sp if la > 0 else 0) + (ip * lp if sa > 0 else 0)
+            cap = ip * max([sp] * (la > 0) + [lp] * (sa > 0))
             if bonus > cap + tol * max(lv + sv, cap) or bonus > imp + tol * max(lv + sv, imp):
-                ctx.violate("v2.deposit.impact_cap", f"positive impact credited {float(bonus)!r} exceeds the impact pool cap {float(cap)!r} or the impact {float(imp)!r}", rep)
+                ctx.violate("v2.deposit.impact_cap", f"deposit({op['long']}, {op['short']}): positive impact credited {float(bonus)!r} USD exceeds the impact pool ({float(ip)!r} units, "
+                            f"worth at most {float(cap)!r} USD in the tokens paid) or the impact {float(imp)!r}", rep)
     else:
         g = F(pre_amount) if op["amount"] is None else F(float(op["amount"]))
         la_, sa_ = F(float(get("longAmount"))), F(float(get("shortAmount")))
@@ -392,6 +566,89 @@ def v2_sequences(ctx: Ctx, n: int):
                 ctx.max_dev = dv
 
 
+def v2_multibar(ctx: Ctx, n: int):
+    """ONE live GmxV2Market moved through several bars (set_market_status on a multi-row frame, or a replaced status dataclass), every group
+    of row fields changing between bars; oracles on the current row, step-wise model comparison, and the model's own fold (`gmx2.events`)."""
+    steps, folds = [], []
+    fields = None
+    for _ in range(n):
+        series = ctx.rng.random() < 0.6
+        pools, classes = G.gen_v2_frame(ctx.rng, series=series)
+        cfg = G.gen_v2_cfg(ctx.rng)
+        wallet = [("weth", G.rand_dec(ctx.rng, 0, 5, 9)), ("usdc", G.rand_dec(ctx.rng, 2, 8, 6))]
+        w = G.V2World(pools, cfg, wallet, amount=ctx.rng.choice([0.0, round(G._logu(ctx.rng, -2, 6), 4)]), series=series)
+        spec0 = w.spec_bars()
+        st0 = w.dump()
+        pool0 = w.pool_json()
+        hist, evs, seen = [], [], []
+        for k in range(len(pools)):
+            w.set_bar(k)
+            hist.append({"bar": k})
+            evs.append({"ev": "status", "pool": w.pool_json()})
+            seen.append(("status", k, classes[k], None, None, None, w.dump(), []))
+            for _ in range(ctx.rng.choice([0, 1, 1, 2, 3])):
+                op, cls = G.gen_v2_op(ctx.rng, w)
+                pre = w.dump()
+                req = w.request(op)
+                hist.append(ser_op(op))
+                rep = {"world": spec0, "events": list(hist)}
+                out, res, acts = w.apply(op)
+                post = w.dump()
+                ctx.impl_traces += 1
+                v2_step_oracle(ctx, w, op, out, res, pre, post, rep)
+                ev = {"ev": op["kind"]}
+                if op["kind"] == "deposit":
+                    ev["long"], ev["short"] = G.fl(float(op["long"])), G.fl(float(op["short"]))
+                else:
+                    ev["amount"] = None if op["amount"] is None else G.fl(float(op["amount"]))
+                evs.append(ev)
+                seen.append((op["kind"], k, classes[k], cls, out, res, post, acts))
+                steps.append((op, k, classes[k], cls, series, out, res, acts, post, rep, req))
+        f = w.object_fields()
+        fields = f if fields is None else sorted(set(fields) | set(f))
+        folds.append((seen, w.events_request({"amount": G.fl(st0["amount"]), "wallet": st0["wallet"]}, pool0, evs), {"world": spec0, "events": list(hist)}))
+    if not ctx.driver_ok:
+        for op, k, bcls, cls, series, out, *_ in steps:
+            ctx.case(f"v2:bars:{op['kind']}:?:{out}:{cls}:{bcls}")
+        return
+    ans = driver_json([p[-1] for p in steps], exe="driver_gmx")
+
+    def cmp(a, out, res, post, acts, tol=G.FTOL):
+        if a["outcome"] != out:
+            return [f"outcome impl {out} model {a['outcome']}"]
+        diffs = G.state_eq_v2(a["state"], post, acts, tol)
+        if out == "ok":
+            lp = G.lp_dict(res)
+            bad = [k_ for k_ in G.LP_FIELDS if not G.fclose(lp[k_], a["result"][k_], tol)]
+            if bad:
+                diffs.append("result fields " + ", ".join(f"{k_}: impl {lp[k_]!r} model {a['result'][k_]}" for k_ in bad))
+        return diffs
+    for (op, k, bcls, cls, series, out, res, acts, post, rep, req), a in zip(steps, ans):
+        if "error" in a:
+            ctx.disagree(f"driver error {a['error']}", rep)
+            continue
+        ctx.case(f"v2:bars:{op['kind']}:{a['tag']}:{out}:{cls}:{'bar0' if k == 0 else 'later'}:{bcls}:{'series' if series else 'dataclass'}", {"bars": bcls, "op": ser_op(op), "outcome": out})
+        diffs = cmp(a, out, res, post, acts)
+        if diffs:
+            ctx.disagree(f"v2 bar {k} ({bcls}) {op['kind']} ({cls}): " + "; ".join(diffs)[:600], rep)
+    fans = driver_json([f[1] for f in folds], exe="driver_gmx")
+    for (seen, req, rep), fa in zip(folds, fans):
+        if isinstance(fa, dict):
+            ctx.disagree(f"v2 fold: driver error {fa}"[:300], rep)
+            continue
+        ok = True
+        for (kind, k, bcls, cls, out, res, post, acts), a in zip(seen, fa):
+            diffs = G.state_eq_v2(a["state"], post, [], F(1, 10 ** 11)) if kind == "status" else cmp(a, out, res, post, acts, F(1, 10 ** 11))
+            if diffs:
+                ctx.disagree(f"v2 fold over {len(seen)} events: first difference at bar {k} ({bcls}) {kind}: " + "; ".join(diffs)[:600], rep)
+                ok = False
+                break
+        ctx.case(f"v2:fold:{len([1 for x in seen if x[0] == 'status'])}bars:{'agree' if ok else 'DISAGREE'}", n=len(seen))
+    ref = driver_json([{"fn": "gmx.fields"}], exe="driver_gmx")[0]
+    if fields is not None and sorted(ref.get("v2", [])) != fields:
+        ctx.disagree(f"GmxV2Market objects carry state the model does not know (or lost some): vars(market) = {fields}, model objectFields = {sorted(ref.get('v2', []))}", {"world": None})
+
+
 def v2_roundtrip_case(ctx, spec, la, sa, record=True):
     w = G.V2World.from_spec(spec)
     out, r, _ = w.apply({"kind": "deposit", "long": la, "short": sa})
@@ -434,15 +691,247 @@ def v2_roundtrips(ctx: Ctx, n: int):
                      {"pool": pcls, "long": la, "short": sa, "paid": float(paid), "back": float(back), "impact": imp})
 
 
+# ---------------------------------------------------------------------------------------------------- whole runs through the real Actuator
+def _quiet_actuator():
+    import logging
+    logging.disable(logging.INFO)
+
+
+def v1_actuator_runs(ctx: Ctx, n: int):
+    """whole backtests through the real Actuator on GENERATED multi-row frames (every group of row fields changing between bars): a strategy
+    buys / sells / reads fees at random bars on the one live market; Actuator itself moves the market from bar to bar and calls update().
+    Every call, every bar's reported balance and wallet are compared with the model's own fold over the whole run (`gmx1.events`)."""
+    import pandas as pd
+    from demeter import Actuator, Strategy
+    _quiet_actuator()
+    folds = []
+    for _ in range(n):
+        rows, names, classes = G.gen_v1_frame(ctx.rng, nbars=ctx.rng.randint(5, 14))
+        wallet = [(t, G.rand_dec(ctx.rng, 0, 7, 6)) for t in names]
+        w = G.V1World(rows, names, wallet)
+        a = Actuator()
+        a.broker.add_market(w.market)
+        w.broker = a.broker
+        for t, b in wallet:
+            a.broker.set_balance(w.tok[t], b)
+        idx = [G.bar_ts(k) for k in range(len(rows))]
+        a.set_price(pd.DataFrame({w.tok[t].name: [Decimal(int(r[f"{t}_price"])) / G.E30 for r in rows] for t in names}, index=idx))
+        log = []          # per bar: [(op, cls, out, res, post)]
+        spec0 = w.spec_bars()
+        hist = []
+
+        class S(Strategy):
+            def on_bar(self_, snapshot):
+                k = len(log)
+                w.bar = k
+                hist.append({"bar": k})
+                done = []
+                for probe in [ctx.rng.random() < 0.4 for _ in range(ctx.rng.choice([0, 0, 1, 1, 2, 3]))]:
+                    op, cls = gen_fee_probe(ctx.rng, w) if probe else G.gen_v1_op(ctx.rng, w)
+                    if op["kind"] == "update":
+                        continue
+                    pre = w.dump()
+                    hist.append(ser_op(op))
+                    rep = {"world": spec0, "events": list(hist), "via": "actuator"}
+                    out, res, _ = w.apply(op)
+                    post = w.dump()
+                    v1_step_oracle(ctx, w, op, cls, out, res, pre, post, None, rep)
+                    done.append((op, cls, out, res, post))
+                hist.append({"kind": "update"})
+                log.append(done)
+
+        st0 = w.dump()
+        env0 = w.env_json()
+        a.strategy = S()
+        a.run(print_result=False)
+        ctx.impl_traces += len(rows)
+        evs, seen = [], []
+        for k in range(len(rows)):
+            w.bar = k
+            r = w.market.data.iloc[k]
+            env = {"rows": env0["rows"] and [{"name": t, "price": F(r[f"{t}_price"]), "usdg": F(r[f"{t}_usdg"]), "weight": F(int(r[f"{t}_weight"]))} for t in [x["name"] for x in env0["rows"]]],
+                   "tokenSet": env0["tokenSet"], "glp": F(r["glp"]), "aum": F(r["aum"]), "usdg": F(r["usdg"]), "interval": F(float(r["interval"])),
+                   "glp_price": F(r["glp_price"]), "wavax_price": F(r["wavax_price"])}
+            evs.append({"ev": "status", "env": env})
+            seen.append(("status", k, None))
+            for op, cls, out, res, post in log[k]:
+                evs.append(v1_event_json(op, w))
+                seen.append((op["kind"], k, (op, cls, out, res, post)))
+            evs.append({"ev": "op", "op": {"kind": "update"}})
+            seen.append(("update", k, None))
+            evs.append({"ev": "balance"})
+            seen.append(("balance", k, a._account_status_list[k]))
+        folds.append((seen, classes, len(a.actions), w.market.market_info,
+                      {"fn": "gmx1.events", "env0": env0, "state": {"glp": st0["glp"], "reward": st0["reward"], "wallet": st0["wallet"]}, "events": evs},
+                      {"world": spec0, "events": list(hist), "via": "actuator"}))
+    import logging
+    logging.disable(logging.NOTSET)
+    if not ctx.driver_ok:
+        return
+    for (seen, classes, nact, key, req, rep), fa in zip(folds, driver_json([f[4] for f in folds], exe="driver_gmx")):
+        if isinstance(fa, dict):
+            ctx.disagree(f"v1 actuator run: driver error {fa}"[:300], rep)
+            continue
+        ok = True
+        for (kind, k, x), ans in zip(seen, fa):
+            bad = None
+            if kind == "balance":
+                bal = x.market_status[key]
+                mw = {t: F(v) for t, v in ans["wallet"]}
+                iw = {t.name: F(v) for t, v in x.asset_balances.items()}
+                if F(ans["net_value"]) != F(bal.net_value) or F(ans["glp"]) != F(bal.glp) or F(ans["reward"]) != F(bal.reward) or mw != iw:
+                    bad = f"account row: impl {bal} wallet {iw} model {ans}"
+            elif kind in ("buy", "sell", "fee"):
+                op, cls, out, res, post = x
+                if ans["outcome"] != out:
+                    bad = f"{kind} ({cls}) outcome impl {out} model {ans['outcome']}"
+                elif kind == "fee":
+                    if out == "ok" and F(ans["fee"]) != F(res):
+                        bad = f"fee impl {res} model {ans['fee']}"
+                elif (out == "ok" and F(ans["result"]) != F(res)) or F(ans["state"]["glp"]) != F(post["glp"]) or \
+                        [(t, F(v)) for t, v in ans["state"]["wallet"]] != [(t, F(v)) for t, v in post["wallet"]]:
+                    bad = f"{kind} ({cls}): impl {res} {post} model {ans}"
+                ctx.case(f"v1:actuator:{kind}:{out}:{cls}:{'bar0' if k == 0 else classes[k]}")
+            if bad:
+                ctx.disagree(f"v1 actuator run ({len(classes)} bars): first difference at bar {k} ({classes[k]}): {bad}"[:700], rep)
+                ok = False
+                break
+        if ok and int(fa[-1]["actions"]) != nact:
+            ctx.disagree(f"v1 actuator run: {nact} actions recorded, model {fa[-1]['actions']}", rep)
+            ok = False
+        ctx.case(f"v1:actuator-run:{'agree' if ok else 'DISAGREE'}", n=len(classes))
+
+
+def v2_actuator_runs(ctx: Ctx, n: int):
+    """the same for GmxV2Market: generated multi-row frames (and, if present, a window of the recorded sample day) through the real Actuator"""
+    import os
+    import pandas as pd
+    from demeter import Actuator, Strategy
+    from common import REPO
+    _quiet_actuator()
+    folds = []
+    sample = os.path.join(REPO, "samples", "data", "arbitrum-GmxV2-0x70d95587d40a2caf56bd97485ab3eec10bee6336-2025-01-08.minute.csv")
+    rec = pd.read_csv(sample, index_col=0, parse_dates=True) if os.path.exists(sample) and os.path.getsize(sample) > 0 else None
+    ctx.note("v2_recorded_sample_rows", 0 if rec is None else len(rec))
+    for i in range(n):
+        if rec is not None and i % 3 == 2:
+            nb = ctx.rng.randint(5, 30)
+            st = ctx.rng.randrange(0, len(rec) - nb)
+            pools = [{k_: float(rec.iloc[j][k_]) for k_ in G.V2_FIELDS} for j in range(st, st + nb)]
+            classes = ["recorded"] * nb
+        else:
+            pools, classes = G.gen_v2_frame(ctx.rng, nbars=ctx.rng.randint(5, 14), series=True)
+        cfg = G.gen_v2_cfg(ctx.rng)
+        wallet = [("weth", G.rand_dec(ctx.rng, 0, 5, 9)), ("usdc", G.rand_dec(ctx.rng, 2, 8, 6))]
+        w = G.V2World(pools, cfg, wallet, series=True)
+        a = Actuator()
+        a.broker.add_market(w.market)
+        w.broker = a.broker
+        for t, b in wallet:
+            a.broker.set_balance(w.long if t == "weth" else w.short, b)
+        idx = [G.bar_ts(k) for k in range(len(pools))]
+        a.set_price(pd.DataFrame({w.long.name: [q["longPrice"] for q in pools], w.short.name: [q["shortPrice"] for q in pools]}, index=idx))
+        log, hist = [], []
+        spec0 = w.spec_bars()
+
+        class S(Strategy):
+            def on_bar(self_, snapshot):
+                k = len(log)
+                w.bar = k
+                hist.append({"bar": k})
+                done = []
+                for _ in range(ctx.rng.choice([0, 0, 1, 1, 2])):
+                    op, cls = G.gen_v2_op(ctx.rng, w)
+                    pre = w.dump()
+                    hist.append(ser_op(op))
+                    rep = {"world": spec0, "events": list(hist), "via": "actuator"}
+                    out, res, _ = w.apply(op)
+                    post = w.dump()
+                    v2_step_oracle(ctx, w, op, out, res, pre, post, rep)
+                    done.append((op, cls, out, res, post))
+                log.append(done)
+
+        st0 = w.dump()
+        pool0 = w.pool_json()
+        a.strategy = S()
+        a.run(print_result=False)
+        ctx.impl_traces += len(pools)
+        evs, seen = [], []
+        for k in range(len(pools)):
+            w.set_bar(k)
+            evs.append({"ev": "status", "pool": w.pool_json()})
+            seen.append(("status", k, None))
+            for op, cls, out, res, post in log[k]:
+                ev = {"ev": op["kind"]}
+                if op["kind"] == "deposit":
+                    ev["long"], ev["short"] = G.fl(float(op["long"])), G.fl(float(op["short"]))
+                else:
+                    ev["amount"] = None if op["amount"] is None else G.fl(float(op["amount"]))
+                evs.append(ev)
+                seen.append((op["kind"], k, (op, cls, out, res, post)))
+            evs.append({"ev": "balance"})
+            seen.append(("balance", k, a._account_status_list[k]))
+        folds.append((seen, classes, len(a.actions), w.market.market_info,
+                      w.events_request({"amount": G.fl(st0["amount"]), "wallet": st0["wallet"]}, pool0, evs), {"world": spec0, "events": list(hist), "via": "actuator"}))
+    import logging
+    logging.disable(logging.NOTSET)
+    if not ctx.driver_ok:
+        return
+    tol = F(1, 10 ** 11)
+    for (seen, classes, nact, key, req, rep), fa in zip(folds, driver_json([f[4] for f in folds], exe="driver_gmx")):
+        if isinstance(fa, dict):
+            ctx.disagree(f"v2 actuator run: driver error {fa}"[:300], rep)
+            continue
+        ok, nmodel = True, 0
+        for (kind, k, x), ans in zip(seen, fa):
+            bad = None
+            nmodel += len(ans.get("state", {}).get("actions", []))
+            if kind == "balance":
+                bal = x.market_status[key]
+                if ans["outcome"] != "ok" or any(not G.fclose(float(getattr(bal, f_)), ans[f_], tol) for f_ in ("net_value", "gm_amount", "long_amount", "short_amount")):
+                    bad = f"account row: impl {bal} model {ans}"
+                else:
+                    iw = [[t.name, v] for t, v in x.asset_balances.items()]
+                    d = G.state_eq_v2(ans["state"], {"amount": float(bal.gm_amount), "wallet": iw}, [], tol)
+                    if d:
+                        bad = "account row: " + "; ".join(d)
+            elif kind in ("deposit", "withdraw"):
+                op, cls, out, res, post = x
+                if ans["outcome"] != out:
+                    bad = f"{kind} ({cls}) outcome impl {out} model {ans['outcome']}"
+                else:
+                    d = G.state_eq_v2(dict(ans["state"], actions=[]), post, [], tol)
+                    if out == "ok":
+                        lp = G.lp_dict(res)
+                        d += [f"{f_}: impl {lp[f_]!r} model {ans['result'][f_]}" for f_ in G.LP_FIELDS if not G.fclose(lp[f_], ans["result"][f_], tol)]
+                    if d:
+                        bad = f"{kind} ({cls}): " + "; ".join(d)
+                ctx.case(f"v2:actuator:{kind}:{out}:{cls}:{'bar0' if k == 0 else classes[k]}")
+            if bad:
+                ctx.disagree(f"v2 actuator run ({len(classes)} bars): first difference at bar {k} ({classes[k]}): {bad}"[:700], rep)
+                ok = False
+                break
+        if ok and nmodel != nact:
+            ctx.disagree(f"v2 actuator run: {nact} actions recorded, model {nmodel}", rep)
+            ok = False
+        ctx.case(f"v2:actuator-run:{classes[0] if classes[0] == 'recorded' else 'generated'}:{'agree' if ok else 'DISAGREE'}", n=len(classes))
+
+
 # ---------------------------------------------------------------------------------------------------- entry points
 def run(ctx: Ctx):
     G.cap_violations(ctx)
     ctx.impl_traces = 0
+    static0 = G.static_state_snapshot()
     v1_sequences(ctx, ctx.scale(700, 12000))
     v1_fee_sweep(ctx, ctx.scale(1500, 40000))
     v1_roundtrips(ctx, ctx.scale(500, 10000))
+    v1_multibar(ctx, ctx.scale(160, 3000))
     v2_sequences(ctx, ctx.scale(900, 15000))
     v2_roundtrips(ctx, ctx.scale(700, 12000))
+    v2_multibar(ctx, ctx.scale(160, 3000))
+    v1_actuator_runs(ctx, ctx.scale(12, 150))
+    v2_actuator_runs(ctx, ctx.scale(12, 150))
+    G.static_state_check(ctx, static0)
     rec = G.recorded_rows()
     ctx.note("recorded_rows_available", rec is not None and len(rec))
     if rec is not None:
@@ -475,6 +964,28 @@ def replay(ctx: Ctx, case) -> bool:
         print(f"   fee {fee} vault {vf}")
         if not (0 <= fee <= 85) or abs(fee - vf) > 1 + F(200 * total, max(1, weight * supply)):
             sub.violate("fee", "", {})
+    elif "events" in case:
+        w = G.V1World.from_spec(sp) if sp["ver"] == 1 else G.V2World.from_spec(sp)
+        for o in case["events"]:
+            if "bar" in o:
+                w.set_bar(o["bar"])
+                continue
+            op = de_op(o)
+            pre = w.dump()
+            out, res, acts = w.apply(op)
+            post = w.dump()
+            rep = {"world": sp, "events": []}
+            if sp["ver"] == 1:
+                v1_step_oracle(sub, w, op, "", out, res, pre, post, None, rep)
+                if out == "ok" and op["kind"] in ("buy", "sell") and F(op["amount"]) >= 0:
+                    u = v1_op_usdg(w, op, pre["glp"])
+                    if u is not None:
+                        try:
+                            v1_fee_oracle(sub, w, op["tok"], u[0], u[1], w.market.get_fee_basis_points(w.token(op["tok"]), Decimal(u[0]), u[1]), rep)
+                        except ArithmeticError:
+                            pass
+            else:
+                v2_step_oracle(sub, w, op, out, res, pre, post, rep)
     else:
         w = G.V1World.from_spec(sp) if sp["ver"] == 1 else G.V2World.from_spec(sp)
         for o in case["ops"]:
